@@ -23,8 +23,9 @@ def jobs(tier, oracle):
                    describe=H.describe, must_exhaust=must)
     if tier == "quick":
         return [job("quick", 1, 60), job("small", 2, 150), job("nested2", 2, 200, prefix=5), job("nestedx", 2, 200, prefix=5)]
-    return [job("full1", 1, 600), job("deep", 1, 900, prefix=4), job("medium", 2, 2400, prefix=3, must=False),
-            job("small", 3, 2400, prefix=2, must=False), job("nested", 2, 1200, prefix=5), job("nested2", 3, 2400, prefix=5), job("nested4", 2, 2400, prefix=6)]
+    return [job("quick", 1, 60), job("small", 2, 150), job("nested2", 2, 100, prefix=5), job("nestedx", 2, 100, prefix=5),
+            job("full1", 1, 200), job("deep", 1, 250, prefix=4), job("medium", 2, 300, prefix=3), job("small", 3, 250, prefix=2),
+            job("nested", 2, 300, prefix=5), job("nested2", 3, 250, prefix=5), job("nested4", 2, 250, prefix=6)]
 
 
 def run(tier):
